@@ -167,9 +167,14 @@ pub fn run(seed: u64, shard: u64, nshards: u64, cases: u64) -> i32 {
         let (bytes, what): (Vec<u8>, &str) = match crng.below(4) {
             0 => {
                 // an extreme of a pseudo-randomly chosen field
-                let fi = crng.usize_below(s.fields.len().max(1));
+                // half of the picks go to count fields: a count that disagrees with its table is
+                // what turns an unchecked index into an out-of-bounds access
+                let counts: Vec<usize> = s.fields.iter().enumerate().filter(|(_, f)| f.kind == crate::refenc::Kind::Count).map(|(i, _)| i).collect();
+                let fi = if !counts.is_empty() && crng.bool() { counts[crng.usize_below(counts.len())] } else { crng.usize_below(s.fields.len().max(1)) };
                 let vals = s.fields.get(fi).map(|f| s.values_for(f)).unwrap_or_default();
-                let vi = match crng.below(3) { 0 => 0, 1 => vals.len().saturating_sub(1), _ => crng.usize_below(vals.len().max(1)) };
+                // values: smallest, largest, any, or one of the small ones (a count a little below /
+                // above the true one keeps the box parseable and the tables inconsistent)
+                let vi = match crng.below(4) { 0 => 0, 1 => vals.len().saturating_sub(1), 2 => crng.usize_below(vals.len().max(1)), _ => crng.usize_below(vals.len().min(8).max(1)) };
                 match mutate_single(s, fi, vi) {
                     Some((b, _)) => (b, "single"),
                     None => (s.bytes.clone(), "unmodified"),
